@@ -82,6 +82,41 @@ func (o ufKR) Fold(v structform.ExtVisitor) error {
 	return v.OnObjectFinished()
 }
 
+// ufNest: a Folder that folds a part of itself with gotype.Fold on the visitor it was given,
+// and goes on with extended events afterwards
+type ufNest struct {
+	A  int
+	In ufZ
+}
+
+func (n ufNest) Fold(v structform.ExtVisitor) error {
+	if err := v.OnObjectStart(-1, structform.AnyType); err != nil {
+		return err
+	}
+	if err := v.OnKey("in"); err != nil {
+		return err
+	}
+	if err := gotype.Fold(n.In, v); err != nil {
+		return err
+	}
+	if err := v.OnKeyRef([]byte("tags")); err != nil {
+		return err
+	}
+	if err := v.OnStringArray([]string{"x", "y"}); err != nil {
+		return err
+	}
+	if err := v.OnKey("a"); err != nil {
+		return err
+	}
+	if err := v.OnInt(n.A); err != nil {
+		return err
+	}
+	return v.OnObjectFinished()
+}
+
+// ufNil has a registered folder that knows about nil
+type ufNil struct{ V int }
+
 // ufFv: Fold is a value method; ufFI: an interface type that embeds Folder
 type ufFv struct{ N int }
 
@@ -158,6 +193,12 @@ var userFoldOptRest = gotype.Folders(
 		}
 		return v.OnObjectFinished()
 	},
+	func(p *ufNil, v structform.ExtVisitor) error {
+		if p == nil {
+			return v.OnString("nilN")
+		}
+		return v.OnInt(p.V)
+	},
 	func(f *float64, v structform.ExtVisitor) error {
 		if math.IsNaN(*f) {
 			return v.OnNil()
@@ -183,6 +224,8 @@ func xvEvents(x interface{}, evs []event) []event {
 		return append(evs, event{kind: evNum, sc: scI(kInt, int64(v))})
 	case bool:
 		return append(evs, event{kind: evBool, sc: scB(v)})
+	case float64:
+		return append(evs, event{kind: evNum, sc: scU(kFloat64, math.Float64bits(v))})
 	case []interface{}:
 		evs = append(evs, event{kind: evArrStart, n: len(v)})
 		for _, e := range v {
@@ -444,6 +487,39 @@ func userPlacement(idx int, r *rng) (interface{}, interface{}) {
 				L []fmt.Stringer
 			}{map[string]fmt.Stringer{k: ufS{n}}, ufS{n + 1}, nil, []fmt.Stringer{ufS{1}, nil}},
 			xo{{"m", xo{{k, xo{{"n", n}}}}}, {"s", xo{{"n", n + 1}}}, {"e", nil}, {"l", []interface{}{xo{{"n", 1}}, nil}}}
+	case 46:
+		// a Folder that calls gotype.Fold on the visitor it was handed, in several places of one value
+		nst := ufNest{A: n, In: ufZ{N: n + 1}}
+		nx := xo{{"in", xo{{"n", n + 1}}}, {"tags", []interface{}{"x", "y"}}, {"a", n}}
+		switch r.n(3) {
+		case 0:
+			return nst, nx
+		case 1:
+			return []interface{}{nst, k, nst}, []interface{}{nx, k, nx}
+		}
+		return struct {
+			X ufNest
+			Y int
+			Z map[string]interface{}
+		}{nst, 1, map[string]interface{}{k: nst}}, xo{{"x", nx}, {"y", 1}, {"z", xo{{k, nx}}}}
+	case 47:
+		// a registered folder that handles nil itself gets the nil pointer wherever it sits
+		var np *ufNil
+		return struct {
+				F *ufNil
+				L []*ufNil
+				I []interface{}
+				M map[string]interface{}
+				V ufNil
+			}{np, []*ufNil{np, {n}}, []interface{}{np, &ufNil{n}}, map[string]interface{}{k: np}, ufNil{n}},
+			xo{{"f", "nilN"}, {"l", []interface{}{"nilN", n}}, {"i", []interface{}{"nilN", n}}, {"m", xo{{k, "nilN"}}}, {"v", n}}
+	case 48:
+		// typed containers of a primitive with a registered folder keep their typed fast path
+		// (registrations are looked up per static type): plain numbers, announced as such
+		return struct {
+			M map[string]float64
+			L []float64
+		}{map[string]float64{k: 1.5}, []float64{2.5}}, xo{{"m", xo{{k, 1.5}}}, {"l", []interface{}{2.5}}}
 	case 45:
 		// more nil pointers through one iterator than any sensible nesting limit
 		return struct {
@@ -488,7 +564,7 @@ func userPlacement(idx int, r *rng) (interface{}, interface{}) {
 	panic("userPlacement")
 }
 
-const nUserPlacements = 46
+const nUserPlacements = 49
 
 // placement 20 needs the value it generated: build it here with one rng so that value and expectation agree
 func userPlacementFixed(idx int, seed uint64) (interface{}, interface{}) {
